@@ -14,7 +14,7 @@ def main():
     ap.add_argument('--replay')
     a = ap.parse_args()
     seed = int(os.environ.get('VERIF_SEED', '0') or 0)
-    sys.path.insert(0, '/repo')
+    sys.path.insert(0, os.environ.get('VERIF_REPO', '/repo'))
     mod = importlib.import_module('checks.' + a.prop.lower())
     if a.replay:
         with open(a.replay) as f:
